@@ -720,8 +720,106 @@ def loadable_section(rng):
         SAFE = False
 
 
-def gen_doc(tier, rng):
+# ---- falsy boundary sweep: 0, 0.0, False, '', [], {}, None through every attribute a serialiser writes conditionally
+FALSY = [None, 0, 0.0, False, "", [], {}]
+META_KEYS = ["title", "id", "name", "taxonomy", "related", "status", "description", "license", "references", "tags", "author",
+             "date", "modified", "fields", "falsepositives", "level", "scope", "custom_x", "errors", "source"]
+
+
+def corr_base(t):
+    c = {"type": t, "rules": ["base", "other_rule"], "timespan": "5m", "group-by": ["u"]}
+    if t.startswith("temporal"): pass
+    elif t == "event_count": c["condition"] = {"gte": 3}
+    elif t == "value_percentile": c["condition"] = {"gte": 3, "field": "f", "percentile": 50}
+    else: c["condition"] = {"gte": 3, "field": "f"}
+    return c
+
+
+def falsy_docs(tier, rng):
     out = []
+    rule0 = {"title": "T", "logsource": {"product": "p"}, "detection": {"sel": {"f": "x"}, "condition": "sel"}}
+    corr0 = {"title": "C", "correlation": corr_base("event_count")}
+    filt0 = {"title": "F", "logsource": {"product": "p"}, "filter": {"rules": ["base"], "flt": {"u": "adm"}, "condition": "not flt"}}
+    kinds = (("rule", rule0, []), ("corr", corr0, BASE_RULES), ("filter", filt0, BASE_RULES))
+    def add(kind, doc, base):
+        c = {"kind": kind, "doc": doc}
+        if base: c["base"] = base
+        out.append(c)
+    # metadata: one attribute at a time, then random pairs / triples
+    for kind, d0, base in kinds:
+        for k in META_KEYS:
+            for v in FALSY:
+                add(kind, dict(d0, **{k: v}), base)
+        for _ in range(40 if tier == "quick" else 600):
+            ks = rng.sample(META_KEYS[1:], rng.choice([2, 3, 4]))
+            add(kind, dict(d0, **{k: rng.choice(FALSY) for k in ks}), base)
+    # log source
+    for kind, d0, base in (kinds[0], kinds[2]):
+        for k in ("category", "product", "service", "definition", "custom_ls"):
+            for v in FALSY:
+                add(kind, dict(d0, logsource={"product": "p", k: v} if k != "product" else {"category": "c", k: v}), base)
+                add(kind, dict(d0, logsource={k: v}), base)
+    # detection values (rule and filter)
+    for v in FALSY:
+        for d in ({"f": v}, {"f": [v]}, {"f": [v, "x"]}, {"f|contains": v}, {"f|all": [v, v]}, {"": v}, {"f": v, "g": v}):
+            add("rule", dict(rule0, detection={"sel": d, "condition": "sel"}), [])
+            add("filter", dict(filt0, filter={"rules": ["base"], "flt": d, "condition": "not flt"}), BASE_RULES)
+        for d in (v, [v], [v, "x"], [[v], {"f": v}]):
+            add("rule", dict(rule0, detection={"sel": d, "condition": "sel"}), [])
+    # filter rules
+    for v in FALSY + ["any", "ANY", "base", ["base"], [""], ["any"]]:
+        add("filter", dict(filt0, filter={"rules": v, "flt": {"u": "adm"}, "condition": "not flt"}), BASE_RULES)
+    # correlation section: one item at a time around a valid base of every type, then pairs and random combinations
+    cond_items = {"count": [0, "0", 0.0, 1, False, None, ""], "field": ["__absent__", "", [], "f", ["f"], ["f", "g"], None, 0],
+                  "percentile": ["__absent__", 0, "0", 0.0, 50, None, False, ""]}
+    sect_items = {"group-by": ["__absent__", None, [], "", "u", ["u"], [""], 0, False],
+                  "aliases": ["__absent__", None, {}, {"a": {}}, {"u": {"base": "x", "other_rule": "y"}}, {"": {"base": ""}}],
+                  "generate": ["__absent__", None, False, True, 0, ""],
+                  "timespan": ["0s", "1m", "5M", "10y", "01h", "0d", "", None, "__absent__"],
+                  "rules": ["__absent__", None, [], "", "base", ["base"], ["base", "other_rule"]]}
+    def build(t, over_sect, over_cond, extended=None):
+        c = corr_base(t)
+        for k, v in over_sect.items():
+            if v == "__absent__": c.pop(k, None)
+            else: c[k] = v
+        if extended is not None: c["condition"] = extended
+        elif over_cond or "condition" in c:
+            cond = dict(c.get("condition", {"gte": 2}))
+            for k, v in over_cond.items():
+                if k == "count":
+                    op = next(iter(x for x in cond if x not in ("field", "percentile")), "gte")
+                    cond[op] = v
+                elif v == "__absent__": cond.pop(k, None)
+                else: cond[k] = v
+            c["condition"] = cond
+        return {"title": "C", "correlation": c}
+    for t in CORR_TYPES:
+        for k, vs in sect_items.items():
+            for v in vs: add("corr", build(t, {k: v}, {}), BASE_RULES)
+        for k, vs in cond_items.items():
+            for v in vs: add("corr", build(t, {}, {k: v}), BASE_RULES)
+        # pairs that interact: aliases x group-by, field x percentile, generate x rules
+        for a in sect_items["aliases"]:
+            for g in sect_items["group-by"][:7]: add("corr", build(t, {"aliases": a, "group-by": g}, {}), BASE_RULES)
+        for f in cond_items["field"][:6]:
+            for pc in cond_items["percentile"][:6]: add("corr", build(t, {}, {"field": f, "percentile": pc, "count": rng.choice([0, 3])}), BASE_RULES)
+        if t.startswith("temporal"):
+            for ext in ("base and other_rule", "base or not other_rule"):
+                for k in ("rules", "group-by", "aliases", "generate"):
+                    for v in sect_items[k]: add("corr", build(t, {k: v}, {}, extended=ext), BASE_RULES)
+            for v in sect_items["rules"]: add("corr", build(t, {"rules": v, "condition": "__absent__"}, {}), BASE_RULES)
+    for _ in range(150 if tier == "quick" else 3000):
+        t = rng.choice(CORR_TYPES)
+        over_s = {k: rng.choice(vs) for k, vs in sect_items.items() if rng.random() < 0.4}
+        over_c = {k: rng.choice(vs) for k, vs in cond_items.items() if rng.random() < 0.5}
+        d = build(t, over_s, over_c)
+        d.update({k: rng.choice(FALSY) for k in rng.sample(META_KEYS[1:], rng.choice([0, 1, 2]))})
+        add("corr", d, BASE_RULES)
+    return out
+
+
+def gen_doc(tier, rng):
+    out = falsy_docs(tier, rng)
     n = 100 if tier == "quick" else 1500
     for _ in range(n):
         m = rmeta(rng, "rule"); m["logsource"] = rlogsource(rng); m["detection"] = loadable_section(rng)
@@ -811,7 +909,7 @@ PROPERTY = Property(
          "value list, mapping, list of mappings, nested lists; single and multiple conditions); hist: 25 detections + random sections x 37 "
          "configurations of the built-in transformations (file/http/command placeholders and field_name_transform excluded); doc: random documents "
          "with all metadata fields (dates as yyyy-mm-dd, yyyy/m/d, date and datetime objects), custom attributes, log source attributes; correlation "
-         "rules of all 8 types with aliases, group-by, generate, extended conditions; filters. non-trivial: det - list/multi-key/modifier/special "
+         "rules of all 8 types with aliases, group-by, generate, extended conditions; filters; falsy boundary sweep (None, 0, 0.0, False, '', [], {}) through every metadata attribute, log source attribute, detection value, filter rules and every item of the correlation section and condition (count, field, percentile, group-by, aliases, generate, timespan, rules; one at a time for all 8 types, interacting pairs, random combinations). non-trivial: det - list/multi-key/modifier/special "
          "character; hist - every case; doc - more than 3 keys written; distinct by (suite, case hash)",
     assumptions=[
         "what the modifier chain makes of the original values is not modelled for C06 (an arbitrary function in the theorems); in the "
